@@ -167,6 +167,16 @@ def _keeps_own_value(facts, field):
 
     ok = True
     n = 0
+    # a `&mut self.<field>` handed to anything (get_or_insert_with, mem::replace, a helper) is a write this argument cannot see
+    from ..mirq import iter_stmts, place_fields, is_adt
+    for b_ in facts.bodies.values():
+        if b_.kind == "promoted" or "::tests::" in b_.name:
+            continue
+        for bi_, si_, s_ in iter_stmts(b_):
+            if s_["k"] == "assign" and s_["rv"]["k"] == "ref" and s_["rv"].get("mut"):
+                fs_ = [(a_, n_) for a_, n_ in place_fields(s_["rv"]["place"]) if is_adt(a_, "Plane")]
+                if fs_ and fs_[0][1] == field:
+                    ok = False
     for st in field_stores(facts, "Plane", field):
         b = st["body"]
         if "::tests::" in b.name:
@@ -207,6 +217,7 @@ def run(facts, rep, tier):
     rep.rule("R11.3", "re-applying the same frame changes nothing", "P")
     rep.rule("R11.5", "one step is a function of (this frame, the row): the updater gets nothing decoded from earlier lines", "P")
     rep.rule("R11.4", "every parameter a format carries is written by frames of that format (in every option/state context)", "P")
+    rep.rule("R11.6", "a row created by a frame starts blank except for the address, its country and what the frame's format carries", "P")
     # R11.5: the reduction of histories to steps assumes the reader hands the updater this line's digits and the frame
     # decoded from exactly those digits (a decoded record reused across lines carries other aircraft's fields along)
     try:
@@ -293,6 +304,29 @@ def run(facts, rep, tier):
                 rep.add(Finding("R11.3", "re-feeding the frame changes %s: DF%s%s" % (",".join(sorted(diff)), r.df, _tcs(r)),
                                 "context '%s': applying the same frame twice gives a different row (%s: %r then %r)"
                                 % (r.ctx["label"], diff[0], r.post_update.fields.get(diff[0]), r.post_update2.fields.get(diff[0])), None))
+    # R11.6: a row CREATED by a frame holds, besides the address and its country, only what that frame's format carries:
+    # every other field still has the value of the blank row (Plane::new evaluated abstractly)
+    from ..absint import k3 as _K3
+    newfn = [b for b in facts.bodies.values() if b.name.endswith("plane::Plane::new") and b.kind != "closure"]
+    n6 = 0
+    if len(newfn) == 1:
+        _I, blank, _st = _K3.run_fn(facts, newfn[0].name, lambda I, st: [], "blank row")
+        if blank is not None and hasattr(blank, "fields"):
+            for r in results:
+                if not accepted(r) or r.df is None or r.post_create is None:
+                    continue
+                n6 += 1
+                d = {f for f, v in r.post_create.fields.items() if summary(v) != summary(blank.fields.get(f))}
+                al = allowed(r) | {"icao", "reg"}
+                if "capability" in al:
+                    pass
+                extra = sorted(d - al)
+                rep.oblige(not extra, ("create-matrix", r.ctx["label"]))
+                for f in extra:
+                    rep.add(Finding("R11.6", "%s set in a row created by a frame that does not carry it: DF%s%s" % (f, r.df, _tcs(r)),
+                                    "context '%s': the row created by this frame starts with %s = %r although its format does not carry that "
+                                    "parameter" % (r.ctx["label"], f, r.post_create.fields.get(f)), None, {"context": r.ctx["label"]}))
+    rep.instances("R11.6", n6, floor=150, what="contexts that create a row")
     rep.instances("R11.1", n1, floor=150, what="accepted contexts")
     rep.instances("R11.2", n2, floor=500, what="stores")
     rep.instances("R11.3", n3, floor=60, what="contexts interpreted twice")
